@@ -4,6 +4,7 @@ package hapsim
 // oracle selection, per property.
 
 import (
+	"fmt"
 	"math/rand/v2"
 	"os"
 	"strings"
@@ -207,7 +208,7 @@ func init() {
 	// ---------------- C02: running HAProxy never diverges from disk after runtime updates
 	dynWeights := map[string]int{"ep_scale": 25, "ep_ready": 10, "ep_replace": 12, "pod_term": 4, "secret_rotate": 8, "ing_ann": 5, "ing_update": 3,
 		"svc_update": 3, "global_change": 1, "renotify": 2, "advance": 6}
-	dynKeys := []string{"affinity", "session-cookie-name", "session-cookie-strategy", "session-cookie-preserve", "session-cookie-value-strategy", "initial-weight",
+	dynKeys := []string{"affinity", "session-cookie-dynamic", "session-cookie-name", "session-cookie-strategy", "session-cookie-preserve", "session-cookie-value-strategy", "initial-weight",
 		"blue-green-deploy", "backend-server-naming", "slots-min-free", "backend-server-slots-increment", "dynamic-scaling", "balance-algorithm", "maxconn-server",
 		"assign-backend-server-id", "secure-backends", "ssl-redirect"}
 	sockFaults := []string{"sock.dial_refused", "sock.write_fail", "sock.read_timeout", "sock.reset_before_exec", "sock.reset_after_exec", "sock.short_reads",
@@ -236,6 +237,20 @@ func init() {
 	}
 	mkDyn("dyn", false)
 	mkDyn("dyn-faults", true)
+	// preserved pod-uid cookies: a slot's cookie cannot be changed at run time
+	register(&Profile{Name: "dyn-cookie", Prop: "C02", Weight: 1,
+		Oracles: OracleSet{Property: "C02", EffectiveStep: true, EffectiveAtSync: true},
+		Build: func(seed uint64, tier string) *RunConfig {
+			r := cfgRng(seed)
+			mn, mx := tierOps(tier, 10, 30)
+			rc := &RunConfig{Property: "C02", Profile: "dyn-cookie", Seed: seed, Ctl: sampleCtl(r), MapOrder: r.IntN(2) == 0, Lagfree: r.IntN(3) == 0}
+			w := map[string]int{"ep_scale": 25, "ep_ready": 6, "ep_replace": 14, "pod_term": 4, "renotify": 2, "advance": 5}
+			rc.World, rc.Ops = GenerateRun(seed, GenOptions{Sparse: r.IntN(3) == 0, IngressKeys: []string{"affinity", "session-cookie-preserve", "session-cookie-value-strategy", "session-cookie-dynamic"},
+				ValueOverrides: map[string][]string{"session-cookie-value-strategy": {"pod-uid"}, "session-cookie-dynamic": {"false"}}, AnnChance: 1, MinOps: mn, MaxOps: mx, QuiesceEvery: pickInt(r, 3, 6),
+				KeysPerRun: 4, W: w, NoForeignClass: true, NoTLS: true,
+				InitialGlobal: map[string]string{"slots-min-free": fmt.Sprint(pickInt(r, 1, 2, 4)), "dynamic-scaling": "true"}})
+			return rc
+		}})
 
 	// ---------------- C12: a change is never lost to a transient failure
 	allFaults := []string{"disk.write_fail", "disk.write_torn", "disk.enospc", "disk.read_fail", "sock.dial_refused", "sock.write_fail", "sock.read_timeout",
